@@ -215,9 +215,15 @@ def print_assumptions(prop_module, names, rundir):
 def coqchk(prop_module, timeout=3000):
     """Runs the independent checker on a compiled property module (thorough tier). Returns (ok, axioms, output):
     ok is False when coqchk fails or reports type-in-type, unsafe (co)fixpoints or assumed positivity."""
-    rc, out = sh(["coqchk", "-silent", "-o", "-Q", COQ, "L21", "L21." + prop_module], timeout=timeout, cwd=WORK)
+    cmd = ["coqchk", "-silent", "-o", "-Q", COQ, "L21", "L21." + prop_module]
+    rc, out = sh(cmd, timeout=timeout, cwd=WORK)
+    if rc != 0 and not out.strip():
+        # died without a word (killed under memory pressure, or a .vo was being rewritten by a concurrent build): once more
+        time.sleep(20)
+        with Lock("coq" if not ALT else "coq-" + os.path.basename(ALTDIR)):
+            rc, out = sh(cmd, timeout=timeout, cwd=WORK)
     if rc != 0:
-        return False, [], out
+        return False, [], "coqchk exit status %s\n%s" % (rc, out)
     sect = {}
     cur = None
     for line in out.splitlines():
